@@ -1065,6 +1065,28 @@ def do_format_case(case, stats, outcomes):
                 F.to_file(path, fileformat=request)
                 with open(path, encoding='utf-8') as f:
                     text = f.read()
+                # the same call onto a path that already holds something:
+                # a longer file (an earlier, larger benchmark under the same
+                # name) and a shorter one; what is delivered is the rendering
+                # and nothing else (seeded change C12-s21: no truncation)
+                for tag, old_text in (('longer', text + '* stale\n+1 x1 +1 x2 >= 1 ;\n' * 40
+                                       + '1 -2 0\n\\stale & row \\\\\n' * 40),
+                                      ('shorter', text[:max(0, len(text) // 2)]),
+                                      ('one-more', text + ';')):
+                    with open(path, 'w', encoding='utf-8') as f:
+                        f.write(old_text)
+                    F2, _ = build(recipe)
+                    F2.to_file(path, fileformat=request)
+                    with open(path, encoding='utf-8') as f:
+                        text2 = f.read()
+                    stats['to_file_over_existing'] += 1
+                    if text2 != text:
+                        outcomes['fmt:existing-file-shows'] += 1
+                        return [{'key': '%s:existing-%s-file:content-differs' % (keybase, tag),
+                                 'what': 'to_file onto a path that held a %s file delivers %r... '
+                                         '(%d characters) instead of the %d characters written '
+                                         'onto a fresh path' % (tag, text2[-80:], len(text2), len(text)),
+                                 'case': case}]
             elif kind == 'file':
                 with open(path, 'w', encoding='utf-8') as f:
                     F.to_file(f, fileformat=request)
